@@ -641,6 +641,18 @@ theorem toSTH_complete (s : STH) (sig : Bytes) (hid : s.rootHash.length = 32) (h
     toSTH s.treeSize s.timestamp s.rootHash sig = some s := by
   simp [toSTH, hid, (parseDS_some sig s.signature).2 hs]
 
+/-- **The `json:"…"` tags of the API message structs are the field names of RFC 6962 §4** (regenerated from types.go on every
+run), in the RFC's order and with the JSON kind the RFC gives (number / base64 string / array of base64 / array of
+entry objects), for all eight messages; `LeafEntry` has exactly `leaf_input`, `extra_data`. -/
+theorem api_json_is_rfc :
+    (∀ m ∈ Rfc.apiTable, ∃ g, goStructOf.lookup m.1 = some g ∧ jsonShape g = some (m.2.map fun (n, k) => (n, some k))) ∧
+    jsonShape "LeafEntry" = some (Rfc.entryFields.map fun (n, k) => (n, some k)) := by
+  decide +kernel
+
+/-- the repository's JSON form of a signed tree head (not an RFC message): names as regenerated -/
+example : (jsonShape "SignedTreeHead").map (·.map (·.1)) =
+    some ["sth_version", "tree_size", "timestamp", "sha256_root_hash", "tree_head_signature", "log_id"] := by decide +kernel
+
 /-! ## non-vacuity: concrete instances -/
 
 def exCert : Bytes := [0x30, 0x03, 0x02, 0x01, 0x05]
